@@ -399,7 +399,7 @@ package interpreter
 // (the element list is private to the invocation until it is returned: the array heap is left out of the glue between events)
 //@ ensures [ArrLit.events] case *ast.ArrayLiteral: evN() <= len(al.Elements) && (evN() > 0 ==> stateIsPostX(evN()-1)) && forall(k, 0, evN(), evalAt(k, al.Elements[k], env, isRepl)) && forall(k, 1, evN(), followsX(k)) && forall(k, 0, evN()-1, sigT(k) == 0) [C14,C11]
 //@ ensures [ArrLit.signal] case *ast.ArrayLiteral: evN() > 0 && sigT(evN()-1) != 0 ==> result1 == evSig(evN()-1) [C04,C05]
-//@ ensures [ArrLit.value] case *ast.ArrayLiteral: (evN() == 0 || sigT(evN()-1) == 0) ==> evN() == len(al.Elements) && result1.Type == 0 && isArr(result0) && len(arr(result0)) == len(al.Elements) && !old(arrAllocated(now(ref(arr(result0))))) [C11]
+//@ ensures [ArrLit.value] case *ast.ArrayLiteral: (evN() == 0 || sigT(evN()-1) == 0) ==> evN() == len(al.Elements) && result1.Type == 0 && isArr(result0) && len(arr(result0)) == len(al.Elements) && !old(arrAllocated(now(ref(arr(result0))))) && forall(j, 0, len(al.Elements), elem(arr(result0), j) == evVal(j)) [C11,C14]
 
 // call: callee, then the arguments left to right, then (only with no error pending) the invocation
 //@ let cn = len(cl.Arguments)
@@ -408,7 +408,7 @@ package interpreter
 //@ ensures [Call.arity] case *ast.Call: live(0) && callable(evVal(0)) && arityOf(evVal(0)) != -1 && cn != arityOf(evVal(0)) ==> evN() == 1 && result1.Type == 0 && errAfter(0, cl.Paren.Line) [C04,C17,C06]
 //@ ensures [Call.args] case *ast.Call: sigT(0) == 0 && callable(evVal(0)) && (arityOf(evVal(0)) == -1 || cn == arityOf(evVal(0))) ==> evN() <= cn+2 && forall(k, 1, evN(), k <= cn ==> evalAt(k, cl.Arguments[k-1], env, isRepl) && followsX(k)) && forall(k, 1, evN()-1, k <= cn ==> sigT(k) == 0) [C14,C04]
 //@ ensures [Call.argsignal] case *ast.Call: sigT(0) == 0 && evN() >= 2 && evN() <= cn+1 && sigT(evN()-1) != 0 ==> result1 == evSig(evN()-1) && stateIsPostX(evN()-1) [C04,C05]
-//@ ensures [Call.invoke] case *ast.Call: evN() == cn+2 ==> invokeAt(cn+1, evVal(0)) && len(evArgs(cn+1)) == cn && followsX(cn+1) && !preFlag(cn+1) && (evErr(cn+1) == nil ==> result0 == evVal(cn+1) && result1.Type == 0 && stateIsPost(cn+1)) && (evErr(cn+1) != nil ==> result1.Type == 0 && errAfter(cn+1, cl.Paren.Line)) [C04,C06,C17]
+//@ ensures [Call.invoke] case *ast.Call: evN() == cn+2 ==> invokeAt(cn+1, evVal(0)) && len(evArgs(cn+1)) == cn && forall(j, 0, cn, evArg(cn+1, j) == evVal(j+1)) && followsX(cn+1) && !preFlag(cn+1) && (evErr(cn+1) == nil ==> result0 == evVal(cn+1) && result1.Type == 0 && stateIsPost(cn+1)) && (evErr(cn+1) != nil ==> result1.Type == 0 && errAfter(cn+1, cl.Paren.Line)) [C04,C06,C17]
 //@ ensures [Call.complete] case *ast.Call: live(0) && callable(evVal(0)) && (arityOf(evVal(0)) == -1 || cn == arityOf(evVal(0))) && forall(k, 1, cn+1, live(k)) ==> evN() == cn+2 [C04,C14]
 
 // function declaration: a new function value closing over the declaring scope (or a fresh child of it) is bound in the current scope
@@ -427,6 +427,8 @@ package interpreter
 // (the map under construction is private to the invocation: the object heap is left out of the glue between events)
 //@ ensures [ObjLit.events] case *ast.ObjectLiteral: evN() <= len(ol.Keys) && (evN() > 0 ==> stateIsPostY(evN()-1)) && forall(k, 0, evN(), evalAt(k, ol.Properties[ol.Keys[k].Lexeme], env, isRepl)) && forall(k, 1, evN(), followsY(k)) && forall(k, 0, evN()-1, sigT(k) == 0) [C13,C14,C12]
 //@ ensures [ObjLit.signal] case *ast.ObjectLiteral: evN() > 0 && sigT(evN()-1) != 0 ==> result1 == evSig(evN()-1) [C04,C05]
+//@ defines distinctKeysOf(ol) ==> forall(a, 0, len(ol.Keys), keyIndex(ol.Keys[a].Lexeme) == a)
+//@ ensures [ObjLit.contents] case *ast.ObjectLiteral: (evN() == 0 || sigT(evN()-1) == 0) && distinctKeysOf(ol) ==> forall(k, 0, len(ol.Keys), objHas(obj(result0), ol.Keys[k].Lexeme) && objGet(obj(result0), ol.Keys[k].Lexeme) == evVal(k)) [C12,C14]
 //@ ensures [ObjLit.value] case *ast.ObjectLiteral: (evN() == 0 || sigT(evN()-1) == 0) ==> evN() == len(ol.Keys) && result1.Type == 0 && isObj(result0) && !old(mapAllocated(now(obj(result0)))) [C12]
 
 //@ loop 1:
@@ -434,6 +436,7 @@ package interpreter
 //@   invariant [iomono] stdoutN >= old(stdoutN) && stderrN >= old(stderrN) && (!utils.HadRuntimeError ==> stderrN == old(stderrN))
 //@   invariant [log] evN() == iter
 //@   invariant [private] properties != nil && !old(mapAllocated(now(properties)))
+//@   invariant [propvals] distinctKeysOf(ol) ==> forall(k, 0, iter, has(properties, ol.Keys[k].Lexeme) && properties[ol.Keys[k].Lexeme] == evVal(keyIndex(ol.Keys[k].Lexeme)))
 //@   invariant [events] forall(k, 0, iter, evalAt(k, ol.Properties[ol.Keys[k].Lexeme], env, isRepl) && sigT(k) == 0)
 //@   invariant [chain] forall(k, 1, iter, followsY(k))
 //@   invariant [now] iter > 0 ==> stateIsPostY(iter-1)
@@ -441,6 +444,7 @@ package interpreter
 //@   invariant [flagmono] old(utils.HadRuntimeError) ==> utils.HadRuntimeError
 //@   invariant [iomono] stdoutN >= old(stdoutN) && stderrN >= old(stderrN) && (!utils.HadRuntimeError ==> stderrN == old(stderrN))
 //@   invariant [log] evN() == iter && len(elements) == iter
+//@   invariant [elemvals] forall(k, 0, iter, elem(elements, k) == evVal(k))
 //@   invariant [private] !old(arrAllocated(now(ref(elements))))
 //@   invariant [events] forall(k, 0, iter, evalAt(k, al.Elements[k], env, isRepl) && sigT(k) == 0)
 //@   invariant [chain] forall(k, 1, iter, followsX(k))
@@ -449,6 +453,7 @@ package interpreter
 //@   invariant [flagmono] old(utils.HadRuntimeError) ==> utils.HadRuntimeError
 //@   invariant [iomono] stdoutN >= old(stdoutN) && stderrN >= old(stderrN) && (!utils.HadRuntimeError ==> stderrN == old(stderrN))
 //@   invariant [nargs] len(arguments) == iter && evN() == iter+1
+//@   invariant [argvals] forall(k, 0, iter, elem(arguments, k) == evVal(k+1))
 //@   invariant [callee] evalAt(0, cl.Callee, env, isRepl) && entryIsPre(0) && sigT(0) == 0 && callable(evVal(0)) && callee == evVal(0) && (arityOf(evVal(0)) == -1 || cn == arityOf(evVal(0)))
 //@   invariant [events] forall(k, 1, iter+1, evalAt(k, cl.Arguments[k-1], env, isRepl) && sigT(k) == 0 && followsX(k))
 //@   invariant [now] stateIsPostX(iter)
